@@ -151,6 +151,7 @@ func zzSrvProcessCertsTLS(hs *serverHandshakeState, certificates [][]byte) (cryp
 
 func zzServerFlowMode(c15, tlsMode bool) {
 	zzS = zzSrvFlow{}
+	zzMS.calls = 0
 	policy := ClientAuthType(vChoice("clientAuth", 5))
 	cfg := &Config{ClientAuth: policy}
 	var err error
@@ -159,8 +160,8 @@ func zzServerFlowMode(c15, tlsMode bool) {
 		suite := &cipherSuite{id: TLS_ECDHE_RSA_WITH_AES_128_GCM_SHA256, keyLen: 16, ivLen: 4,
 			ka: func(version uint16) keyAgreement { return zzKA08{} }, flags: suiteECDHE | suiteTLS12}
 		hs := &serverHandshakeState{c: c, suite: suite,
-			clientHello: &clientHelloMsg{vers: VersionTLS12, random: make([]byte, 32)},
-			hello:       &serverHelloMsg{vers: VersionTLS12, random: make([]byte, 32)},
+			clientHello: &clientHelloMsg{vers: VersionTLS12, random: zzRandomOf(0xC1)},
+			hello:       &serverHelloMsg{vers: VersionTLS12, random: zzRandomOf(0x5E)},
 			cert:        &Certificate{Certificate: [][]byte{{1}}}}
 		err = hs.doFullHandshake()
 	} else {
@@ -172,13 +173,14 @@ func zzServerFlowMode(c15, tlsMode bool) {
 			}
 		}
 		hs := &serverHandshakeStateGM{c: c, suite: suite,
-			clientHello: &clientHelloMsg{vers: VersionGMSSL, random: make([]byte, 32)},
-			hello:       &serverHelloMsg{vers: VersionGMSSL, random: make([]byte, 32)},
+			clientHello: &clientHelloMsg{vers: VersionGMSSL, random: zzRandomOf(0xC1)},
+			hello:       &serverHelloMsg{vers: VersionGMSSL, random: zzRandomOf(0x5E)},
 			cert:        []Certificate{{Certificate: [][]byte{{1}}}, {Certificate: [][]byte{{2}}}}}
 		err = hs.doFullHandshake()
 	}
 	if err == nil {
 		vReach("completed")
+		vAssert("master-secret-from-client-random-then-server-random", zzMS.calls == 1 && zzMS.argsOK)
 		vAssert("completed-implies-key-exchange-decrypted", zzS.ckxOK)
 		if policy == RequireAnyClientCert || policy == RequireAndVerifyClientCert {
 			vAssert("required-client-certificate-was-presented", zzS.certsProcessed && zzS.certsGiven > 0)
